@@ -19,7 +19,11 @@ from pysym import shims
 PROPERTY = 'C16'
 BODY_ALPHABET = 'TruetRUE"\' \n1'
 SHAPES = ['direct', 'not', 'or-role', 'and-role', 'alias', 'alias-chain',
-          'nested']
+          'nested',
+          # the enforced name is not defined: the (named) default rule
+          # decides, and it is a remote check -- the remote side is still
+          # asked about the ENFORCED policy
+          'via-default-rule', 'via-custom-default-rule']
 FAULTS = ['none', 'timeout', 'connection', 'ssl']
 TLS = ['plain', 'cert-ok', 'cert-missing', 'cert-unreadable', 'key-missing',
        'key-unreadable', 'ca-missing', 'ca-ok', 'verify-no-ca']
@@ -146,6 +150,10 @@ def _rules(shape, scheme, pol='compute:start'):
         return {pol: 'rule:remote', 'remote': url}, pol
     if shape == 'alias-chain':
         return {pol: 'rule:a1', 'a1': 'not (not rule:a2)', 'a2': url}, pol
+    if shape == 'via-default-rule':
+        return {'default': url, 'unrelated': '!'}, pol
+    if shape == 'via-custom-default-rule':
+        return {'fallback': 'rule:remote', 'remote': url}, pol
     return {pol: '(role:admin and @) or (role:member and (%s or !))' % url},\
         pol
 
@@ -203,8 +211,10 @@ def run_http(ctx, shape, scheme, ctype, fault, tls, blen, pol=0):
                 over['remote_ssl_verify_server_crt'] = True
         conf = common.new_conf(**over)
         rules, pol = _rules(shape, scheme, POLNAMES[pol])
-        enf = common.mk_enforcer(rules=policy.Rules.from_dict(rules),
-                                 conf=conf)
+        enf = common.mk_enforcer(
+            rules=policy.Rules.from_dict(rules), conf=conf,
+            default_rule='fallback' if shape == 'via-custom-default-rule'
+            else None)
         opaque = object()
         target = {'name': 'srv1', 'nested': {'a': [1, {'b': 'c'}]},
                   'opaque': opaque, 'project_id': 'p'}
@@ -251,11 +261,13 @@ def run_http(ctx, shape, scheme, ctype, fault, tls, blen, pol=0):
         member = z3.BoolVal('member' in roles)
         reach = {'direct': True, 'not': True, 'or-role': 'admin' not in roles,
                  'and-role': 'member' in roles, 'alias': True,
-                 'alias-chain': True,
+                 'alias-chain': True, 'via-default-rule': True,
+                 'via-custom-default-rule': True,
                  'nested': 'admin' not in roles and 'member' in roles}[shape]
         want = {'direct': ok, 'not': z3.Not(ok), 'or-role': z3.Or(admin, ok),
                 'and-role': z3.And(member, ok), 'alias': ok,
-                'alias-chain': ok,
+                'alias-chain': ok, 'via-default-rule': ok,
+                'via-custom-default-rule': ok,
                 'nested': z3.Or(admin, z3.And(member, ok))}[shape]
         must_raise = reach and (fault != 'none' or tls_error)
         row = {'shape': shape, 'scheme': scheme, 'ctype': ctype,
